@@ -32,8 +32,9 @@ fn fits<VM: VMBinding>(s: &mut Src) {
     // with a 64 KiB-aligned block start, so they are word-aligned, and aligned to the VM's minimum
     // alignment (which `get_maximum_aligned_size` takes as known) iff the cell size is a multiple
     // of it -- that is an obligation on the chosen class, checked here.
-    chk!(s, "the cell size is a multiple of the VM's minimum alignment (cells stay MIN_ALIGNMENT-aligned)", cell & (VM::MIN_ALIGNMENT - 1) == 0);
-    let cell_align = if VM::MIN_ALIGNMENT > 8 { VM::MIN_ALIGNMENT } else { 8 };
+    // (a zero-size request may share the 8-byte class: nothing of it has to be aligned)
+    chk!(s, "the cell size of a non-empty request is a multiple of the VM's minimum alignment (cells stay MIN_ALIGNMENT-aligned)", size == 0 || cell & (VM::MIN_ALIGNMENT - 1) == 0);
+    let cell_align = if VM::MIN_ALIGNMENT > 8 && cell & (VM::MIN_ALIGNMENT - 1) == 0 { VM::MIN_ALIGNMENT } else { 8 };
     let cell_addr = s.any_usize();
     let offset = s.any_usize();
     s.assume(cell_addr & (cell_align - 1) == 0 && cell_addr >= 4096 && cell_addr < (1usize << 47));
@@ -45,7 +46,7 @@ fn fits<VM: VMBinding>(s: &mut Src) {
     s.assume(size2 & (VM::MIN_ALIGNMENT - 1) == 0 && size2 <= size);
     chk!(s, "bin index is monotone in the request size", mi_bin::<VM>(size2, align) <= bin);
     cov!(s, "largest size class", bin == MAX_BIN);
-    cov!(s, "small exact class", bin == 5);
+    cov!(s, "small exact class", bin >= 2 && bin <= 8 && cell == padded);
     cov!(s, "request padded for alignment", padded > size);
     cov!(s, "object not at the cell start", start > cell_addr);
 }
